@@ -66,3 +66,12 @@ Proof.
   intros H. inversion H as [|x l Hnin Hnd]; subst. apply Hnin. left. reflexivity.
 Qed.
 Print Assumptions nonce_unique_pinned_refuted.
+
+(* D1: on the pinned tree an unknown hash algorithm name crashed VerifyAddress *)
+From Verif Require Import Address.
+Theorem verify_pinned_refuted : exists H a, verify_address_pinned H a = Panic.
+Proof.
+  exists (fun _ => None), (mkPub (253 :: repeat 0 15) [78;79;80;69] ed25519_name (repeat 1 32) 0).
+  vm_compute. reflexivity.
+Qed.
+Print Assumptions verify_pinned_refuted.
